@@ -296,7 +296,7 @@ func (s *Swarm) genPlain(rng *vrt.Rand, restartCfg func() *Config) func(r *Runne
 		case "backup":
 			backups++
 			op.N = backups
-			op.F = float64(rng.Pick([]int{5, 1, 1, 1, 1})) // how the destination is named (see backupDir)
+			op.F = float64(rng.Pick([]int{5, 1, 1, 1, 1, 2})) // how the destination is named (see backupDir)
 		}
 		prev = op
 		return op
